@@ -513,6 +513,9 @@ def real_cases_gen():
     def add(c):
         if c["kind"] == "weakforms":
             c = dict(c, linear_assemble=(not excluded) and c["seed"] % 2 == 0)
+        if c["kind"] in ("elastic", "thermal") and c["seed"] % 3 == 0 and not c["recipe"].get("bend"):
+            # orphan nodes (coordinate rows no element uses): the assembled matrices hold nothing for them
+            c = dict(c, recipe=dict(c["recipe"], orphans=1 + c["seed"] % 2))
         return c
 
     return real_cases().map(add)
